@@ -7,6 +7,16 @@ TRUST = ("TLC 1.8 evaluates the TLA+ judge; harness/lib.py projections (real obj
          "of abstract cases are trusted; bounds as stated in the evidence file")
 
 CHECKS = {
+ "C17": dict(
+    text="Mst.tla states the construction as a greedy machine (state: connected set, parents, path lengths, child counts; one action per attachment, enabled for "
+         "the admissible pairs of minimal cost q*distance + p*path length) and the statements about the result (spanning, rooted at the soma / first point, "
+         "branching limit with root exemption, minimum spanning tree by the cycle property). MC_Mst runs it on exact instances (collinear points, 3-4-5 "
+         "rectangles) for every balancing factor, limit and exemption, carries the code's mask matrix alongside and checks that the unmasked entries are "
+         "exactly the admissible pairs, that every step is a greedy step, that the loop completes, and that without factor and limit the total length is the "
+         "minimum over all spanning trees (by enumeration); the named deviation (path length broadcast over the wrong axis) is rejected. Trees built by the "
+         "real transforms on every small lattice point set and on random clouds (float64 / float32, far from the origin, up to 240 points) are validated by "
+         "Trace_Mst: TLC re-runs the machine and requires, at every attachment, a cost-minimal admissible pair among the observed edges",
+    design="4/C17", technique="TLA+ greedy state machine + mask-bookkeeping algorithm layer model-checked on exact instances; trace validation of observed trees by re-running the machine in TLC (one state per attachment)"),
  "C15": dict(
     text="Asc.tla has a producer (a grammar-driven state machine emitting one document token by token while a reference interpreter - a stack of split "
          "parents and the last point - maintains the table the document denotes) and a consumer (the recursive-descent parser transcribed with its flag / "
